@@ -4,7 +4,7 @@ import re
 
 from sa.loader import AnalysisError, norm, walk_local
 from sa.spec import schema_spec as spec
-from .common import analysis, str_consts_compared
+from .common import analysis, literals_tested, assigned_values
 
 PROP = "C13"
 TECHNIQUE = "constant propagation over the canonical writer's emitted templates (key whitelist and order, no whitespace, bare integers, primitives in simple form); provenance of names from the parser; walker exhaustiveness against the parser's kinds"
@@ -19,39 +19,70 @@ LEVEL_NOTE = "Not decided: invariance under cosmetic rewrites, idempotence and '
 ASSUMPTIONS = ["key order table transcribed from the specification's Parsing Canonical Form"]
 
 
-def templates(f):
-    """schema kind (from the if/elif chain on schema_type / isinstance) -> concatenated emitted text with placeholders"""
-    out = {}
+class Canon:
+    """roles of the canonical writer: S = schema parameter, FO = output parameter, tvar = local holding S['type']"""
 
-    def text_of(stmts):
+    def __init__(self, f):
+        self.f = f
+        self.S, self.FO = f.pos_params[0], f.pos_params[1]
+        tv = [n.targets[0].id for n in walk_local(f.node) if isinstance(n, ast.Assign) and isinstance(n.targets[0], ast.Name) and norm(n.value) in (f"{self.S}['type']", f"{self.S}.get('type')")]
+        self.tvar = tv[0] if tv else f"{self.S}['type']"
+
+    def text_of(self, stmts):
         parts = []
         for st in stmts:
             for n in ast.walk(st):
-                if isinstance(n, ast.Call) and isinstance(n.func, ast.Attribute) and n.func.attr == "write" and n.args:
+                if isinstance(n, ast.Call) and isinstance(n.func, ast.Attribute) and n.func.attr == "write" and norm(n.func.value) == self.FO and n.args:
                     parts.append((n.lineno, n.col_offset, render(n.args[0])))
         return "".join(t for (_, _, t) in sorted(parts))
 
-    for n in walk_local(f.node):
-        if isinstance(n, ast.If):
-            t = norm(n.test)
-            kinds = None
-            if t == "isinstance(schema, list)":
-                kinds = ("union",)
-            elif t == "not isinstance(schema, dict)":
-                kinds = ("reference",)
+    def regions(self, stmts, out):
+        """partition the function by its kind dispatch: {kinds: (node, text)}"""
+        S = self.S
+        for st in stmts:
+            if not isinstance(st, ast.If):
+                continue
+            t = norm(st.test)
+            if t == f"isinstance({S}, list)":
+                out[("union",)] = (st, self.text_of(st.body))
+                self.regions(st.orelse, out)
+            elif t == f"isinstance({S}, dict)":
+                self.regions(st.body, out)
+                if st.orelse and not (len(st.orelse) == 1 and isinstance(st.orelse[0], ast.If)):
+                    out[("reference",)] = (st, self.text_of(st.orelse))
+                else:
+                    self.regions(st.orelse, out)
+            elif t in (f"not isinstance({S}, dict)", f"isinstance({S}, str)"):
+                out[("reference",)] = (st, self.text_of(st.body))
+                self.regions(st.orelse, out)
             else:
-                lits = set()
-                parts = n.test.values if isinstance(n.test, ast.BoolOp) and isinstance(n.test.op, ast.Or) else [n.test]
-                for x in parts:
-                    if isinstance(x, ast.Compare) and norm(x.left) == "schema_type" and isinstance(x.ops[0], ast.Eq) and isinstance(x.comparators[0], ast.Constant):
-                        lits.add(x.comparators[0].value)
-                    elif isinstance(x, ast.Compare) and norm(x.left) == "schema_type" and isinstance(x.ops[0], ast.In):
-                        lits.add("<" + norm(x.comparators[0]) + ">")
+                lits = literals_tested(st.test, self.tvar)
                 if lits:
-                    kinds = tuple(sorted(lits))
-            if kinds:
-                out[kinds] = (n, text_of(n.body))
-    return out
+                    out[tuple(sorted(lits))] = (st, self.text_of(st.body))
+                    self.regions(st.orelse, out)
+        return out
+
+    def sources(self, expr_text):
+        """what an interpolated expression stands for: the values assigned to it when it is a local name"""
+        if re.fullmatch(r"[A-Za-z_]\w*", expr_text) and expr_text not in (self.S,):
+            vals = {norm(v) for v in assigned_values(self.f.node, expr_text)}
+            if vals:
+                return vals
+        return {expr_text}
+
+    def field_vars(self):
+        """loop variables that range over S['fields']"""
+        out = set()
+        for n in walk_local(self.f.node):
+            if isinstance(n, ast.For) and f"{self.S}['fields']" in norm(n.iter):
+                for x in ast.walk(n.target):
+                    if isinstance(x, ast.Name):
+                        out.add(x.id)
+        return out
+
+
+def templates(f):
+    return Canon(f).regions(f.node.body, {})
 
 
 def render(e):
@@ -73,7 +104,10 @@ def run(ctx):
     p = a.p
     f = p.func("_schema_py:_to_parsing_canonical_form")
     pub = p.func("_schema_py:to_parsing_canonical_form")
-    T = templates(f)
+    K = Canon(f)
+    T = K.regions(f.node.body, {})
+    if not T:
+        raise AnalysisError("_to_parsing_canonical_form: kind dispatch not recognised")
 
     ctx.rule("C13.R1", "emitted templates: keys are an order-respecting subsequence of name, type, fields, symbols, items, values, size; no whitespace; bare integers; primitives in simple form", floor=8)
     order = spec.CANONICAL_ORDER
@@ -89,16 +123,20 @@ def run(ctx):
         ctx.check("C13.R1", f"{label}: only canonical attributes are emitted", ok_keys, f.where(node), f"_to_parsing_canonical_form {label}: keys {keys}", "an attribute outside name/type/fields/symbols/items/values/size is written into the canonical form")
         ctx.check("C13.R1", f"{label}: attributes in canonical order", ok_order, f.where(node), f"_to_parsing_canonical_form {label}: keys {keys}", "attributes are not in the order name, type, fields, symbols, items, values, size")
         ctx.check("C13.R1", f"{label}: no whitespace", ok_white, f.where(node), f"_to_parsing_canonical_form {label}: {const!r}", "the canonical form must contain no whitespace")
-    rec = T.get(("error", "record"))
+    rec = next((v for k, v in T.items() if "record" in k), None)
     if rec:
         ctx.check("C13.R1", "record: field objects are {name, type} only", '"fields":[' in rec[1] and re.sub(r"\x00.*?\x01", "", rec[1]).count('"name":') == 2, f.where(rec[0]), "_to_parsing_canonical_form record template", "fields must be written as {\"name\":..,\"type\":..} only")
     fx = T.get(("fixed",))
     if fx:
-        ctx.check("C13.R1", "fixed: size is interpolated as a bare integer", '"size":\x00size\x01}' in fx[1], f.where(fx[0]), f"_to_parsing_canonical_form fixed: {fx[1]!r}", "the size must be a plain decimal integer, unquoted and unformatted")
+        m = re.search(r'"size":\x00([^\x01]*)\x01}', fx[1])
+        ok = m is not None and K.sources(m.group(1)) == {f"{K.S}['size']"}
+        ctx.check("C13.R1", "fixed: size is interpolated as a bare integer", ok, f.where(fx[0]), f"_to_parsing_canonical_form fixed: {fx[1]!r}", "the size must be a plain decimal integer, unquoted and unformatted")
     prim = [v for k, v in T.items() if any(x.startswith("<") for x in k)]
     ref = T.get(("reference",))
     for (node, text) in prim + ([ref] if ref else []):
-        ctx.check("C13.R1", "primitives and references are written as bare quoted names", re.fullmatch(r'"\x00schema(_type)?\x01"', text) is not None, f.where(node), f"_to_parsing_canonical_form: {text!r}", "primitive types must be in simple form (\"int\", not {\"type\":\"int\"})")
+        m = re.fullmatch(r'"\x00([^\x01]*)\x01"', text)
+        ok = m is not None and K.sources(m.group(1)) <= {K.S, f"{K.S}['type']"}
+        ctx.check("C13.R1", "primitives and references are written as bare quoted names", ok, f.where(node), f"_to_parsing_canonical_form: {text!r}", "primitive types must be in simple form (\"int\", not {\"type\":\"int\"})")
     un = T.get(("union",))
     if un:
         ctx.check("C13.R1", "union: [branch,branch,...] with comma separators only between branches", re.sub(r"\x00.*?\x01", "", un[1]) == "[,]", f.where(un[0]), f"_to_parsing_canonical_form union: {un[1]!r}", "unions must be written as a JSON array without extra text")
@@ -109,12 +147,17 @@ def run(ctx):
     ctx.check("C13.R2", "to_parsing_canonical_form(schema) canonicalises parse_schema(schema)", ok, pub.where(), f"to_parsing_canonical_form: {[norm(c) for c in calls]}", "names would not be full names if the schema were not parsed first")
     alltext = "".join(t for (_, t) in T.values())
     ctx.check("C13.R2", "no template mentions namespace / doc / aliases / default / order / logicalType", not re.search(r"namespace|doc|aliases|default|order|logicalType", re.sub(r"\x00.*?\x01", "", alltext)), f.where(), "canonical templates", "a non-canonical attribute is emitted")
-    names = [norm(n.value) for n in walk_local(f.node) if isinstance(n, ast.Assign) and norm(n.targets[0]) == "name"]
-    ctx.check("C13.R2", "names written are schema['name'] / field['name'] of the parsed schema", sorted(set(names)) == ["field['name']", "schema['name']"], f.where(), f"_to_parsing_canonical_form: name sources {sorted(set(names))}", "the name emitted is not the parsed (full) name")
+    names = set()
+    for m in re.finditer(r'"name":"\x00([^\x01]*)\x01"', alltext):
+        names |= K.sources(m.group(1))
+    allowed = {f"{K.S}['name']"} | {f"{v}['name']" for v in K.field_vars()}
+    ctx.check("C13.R2", "names written are schema['name'] / field['name'] of the parsed schema", bool(names) and names <= allowed, f.where(), f"_to_parsing_canonical_form: name sources {sorted(names)}", "the name emitted is not the parsed (full) name")
 
     ctx.rule("C13.R3", "the canonical writer handles every kind the parser produces", floor=6)
     ps = p.func("_schema_py:_parse_schema")
-    parser_kinds = {k for k in str_consts_compared(ps.node, "schema_type")}
+    from .c11 import Roles
+
+    parser_kinds = {k for k in Roles(ps).arms if not k.startswith("<")}
     mine = set()
     for kinds in T:
         mine |= set(kinds)
